@@ -61,6 +61,7 @@ def run(gen, seed, n_ops=60):
         duo = rnd.random() < 0.35
         w = AW.ModelWorld(gen, loop, net, log, inst, C.Knobs(), host="10.0.0.1" if duo else None)
         other = None
+        other_t0 = []
         if duo:
             # a second client of either generation lives in the same process, with its own
             # console: whatever happens to one of them is none of the other's business
@@ -70,6 +71,7 @@ def run(gen, seed, n_ops=60):
             if await other.init_and_sync() is not True:
                 v("C09", "second-client-init-fails")
                 return
+            other_t0.append(loop.time())
             bump("sessions_with_a_second_client")
         causes = []          # instants at which a fault / outage was caused or ended
         shutdown_spans = []  # (t0, t1) of shutdown() calls
@@ -402,6 +404,14 @@ def run(gen, seed, n_ops=60):
                 count[f.raw] = 1
             last_at[f.raw] = idx
         if other is not None:
+            # its heartbeat: the handshake's version request and one every 300 s ever since
+            t0b = other_t0[0]
+            want = 2 + int((loop.time() - t0b) // 300.0)
+            got = sum(1 for (t, cc, f, cmd) in other.console.frames
+                      if cmd["kind"] == "version_request")
+            if got != want and abs(((loop.time() - t0b) % 300.0)) > 1e-6:
+                v("C08", "second-client-heartbeats-not-every-300s", seen=got, expected=want,
+                  monitoring_since=t0b, now=loop.time())
             # the second client was left alone all the time: one connection, still in sync
             n_open = sum(1 for _, _, k, d in log.events if k == "NET.open"
                          and d["host"] == "10.0.0.2")
